@@ -154,6 +154,21 @@ def run(ctx: core.Ctx) -> int:
         if isinstance(v, TupleV) and len(v.items) == 2 and _is_input(v.items[0], "x") and _is_input(v.items[1], "P"):
             ctx.oblige("EARLY", f"{PY}:{sq}", "accepted readings are applied", False, file=PY, func=sq,
                        construct="accept path returns inputs", msg="a non-rejected path returns the inputs unchanged", line=e["line"])
+    # ---- the decision is a pure function of (innovation, S_inv, configured threshold)
+    from .. import effects
+    ctx.rule("PURE", "remove_innovation writes nothing (no cached state can leak from one reading / sensor to the next)")
+    cls = core.need(core.find_class(it.p.modules["python"], "ExtendedKalmanFilter"), "python.ExtendedKalmanFilter")
+    fn = core.need(core.find_func(cls, "remove_innovation"), "ExtendedKalmanFilter.remove_innovation")
+    ws = effects.writes(fn)
+    ctx.oblige("PURE", f"{PY}:{qual}", f"{len(ws)} write effect(s)", not ws, file=PY, func=qual,
+               construct="writes:" + ";".join(sorted(w.kind + " " + w.target for w in ws)),
+               msg="the decision function keeps state between calls: " + "; ".join(f"{w.kind} {w.target} (line {w.line})" for w in ws)
+                   + " -- the bound depends on the reading dimension and must be computed per call",
+               line=ws[0].line if ws else None)
+    reads = sorted({n.attr for n in __import__("ast").walk(fn) if isinstance(n, __import__("ast").Attribute)
+                    and isinstance(n.value, __import__("ast").Name) and n.value.id == "self"} - {"config"})
+    ctx.oblige("PURE", f"{PY}:{qual}", f"reads self.{reads}", not reads, file=PY, func=qual, construct="reads:" + ",".join(reads),
+               msg=f"the decision depends on filter state other than the configuration: self.{reads}")
     ctx.extra["forms"] = forms
     # ---- C++ siblings (clang AST) -- filled in by cpp side
     try:
